@@ -618,8 +618,9 @@ impl Universe {
     }
 }
 
-/// generator switches set by a harness before generating (C14: more bindings; keep named
-/// sub-patterns on void payloads out while D47 is not repaired)
+/// generator switches set by a harness before generating (C14: more bindings; named sub-patterns on
+/// void payloads are left out only when the D47 compile-hang regression probe has just failed, so that
+/// the run terminates after reporting it)
 pub static AVOID_NAMED_VOID: std::sync::atomic::AtomicBool = std::sync::atomic::AtomicBool::new(false);
 pub static MORE_BINDS: std::sync::atomic::AtomicBool = std::sync::atomic::AtomicBool::new(false);
 
